@@ -17,7 +17,8 @@ class EqualityRewriterConfig : public DefaultRewriterConfig {
 public:
     explicit EqualityRewriterConfig(ArithLogic & logic) : logic(logic) {}
 
-    bool previsit(PTRef term) override { return logic.hasSortBool(term) and not logic.isIte(term); }
+    // Boolean terms also occur below terms of other sorts (arguments of uninterpreted functions): descend everywhere
+    bool previsit(PTRef term) override { return not logic.isIte(term); }
 
     PTRef rewrite(PTRef term) override {
         if (logic.isNumEq(term)) {
